@@ -115,6 +115,9 @@ func BuildNode(n Node) any {
 		case "flt":
 			f, _ := strconv.ParseFloat(txt, 64)
 			return f
+		case "f32":
+			f, _ := strconv.ParseFloat(txt, 32)
+			return float32(f)
 		case "tnil": // a typed nil pointer: an element like any other (not nil as an interface value)
 			return (*int)(nil)
 		}
